@@ -275,6 +275,15 @@ class Sim:
             for t in pending:
                 if t.done() and not t.cancelled():
                     t.exception()
+                elif not t.done():
+                    # still there after cancellation (a run that hit its
+                    # cap): finish the coroutine off here rather than leave
+                    # it to the collector, which would run its clean-up code
+                    # in the middle of a later run
+                    try:
+                        t.get_coro().close()
+                    except BaseException: # pylint: disable=W0703
+                        pass
         finally:
             asyncio.set_event_loop(None)
             loop.close()
